@@ -26,8 +26,9 @@ class Malformed(Exception):
 
 
 class Gen:
-    def __init__(self, ctx, b, depth, width):
+    def __init__(self, ctx, b, depth, width, reduced_children=False):
         self.ctx, self.b, self.depth, self.width = ctx, b, depth, width
+        self.reduced = reduced_children
         self.nsym = 0
 
     def V(self, variant, *f):
@@ -82,17 +83,20 @@ class Gen:
         flds = [self.fld('name', self.V('Str', name))]
         attrs_ref = []
         bad = None
-        ak = self.choose('a' + path, ['absent', 'null', 'tuple', 'not-a-tuple'])
+        # below the root the wider documents keep one representative per class (the full option product of every node is in the
+        # depth-1 / one-child case)
+        slim = self.reduced and d > 0
+        ak = self.choose('a' + path, ['absent', 'tuple', 'not-a-tuple'] if slim else ['absent', 'null', 'tuple', 'not-a-tuple'])
         if ak == 'null':
             flds.append(self.fld('attrs', self.V('Empty')))
         elif ak == 'not-a-tuple':
             flds.append(self.fld('attrs', self.V('Int', 1)))
             bad = bad or 'attrs is not a tuple'
         elif ak == 'tuple':
-            n = self.choose('an' + path, [0, 1, 2])
+            n = self.choose('an' + path, [1] if slim else [0, 1, 2])
             afl = []
             for i in range(n):
-                vk = self.choose('av%s_%d' % (path, i), ['str', 'null', 'int'])
+                vk = self.choose('av%s_%d' % (path, i), ['str'] if slim else ['str', 'null', 'int'])
                 an = 'a%d' % i
                 if vk == 'str':
                     s = self.sym_text('as%s_%d' % (path, i))
@@ -105,7 +109,7 @@ class Gen:
                     bad = bad or 'attribute value is not a string'
             flds.append(self.fld('attrs', self.V('Tuple', VecV(afl))))
         ns_ref = None
-        nk = self.choose('n' + path, ['absent', 'string', 'pair', 'pair-null-prefix', 'pair-null-uri'])
+        nk = self.choose('n' + path, ['absent', 'pair'] if slim else ['absent', 'string', 'pair', 'pair-null-prefix', 'pair-null-uri'])
         if nk == 'string':
             flds.append(self.fld('ns', self.V('Str', 'urn:d')))
             ns_ref = ('', 'urn:d')
@@ -160,7 +164,7 @@ def contains_bad(ref):
 
 def harness(ctx, case):
     b = astb.B(ctx.prog)
-    g = Gen(ctx, b, case['depth'], case['width'])
+    g = Gen(ctx, b, case['depth'], case['width'], case.get('reduced', False))
     out = {'reached': False, 'asserts': 0, 'violations': []}
     flds = []
     doc_bad = None
@@ -330,9 +334,13 @@ def show(evs):
 
 def run(fw):
     quick = fw.tier == 'quick'
-    cases = [{'family': 'header', 'depth': 0, 'width': 0}, {'family': 'tree', 'depth': 1 if quick else 2, 'width': 1 if quick else 2},
+    cases = [{'family': 'header', 'depth': 0, 'width': 0}, {'family': 'tree', 'depth': 1, 'width': 1},
              {'family': 'header', 'depth': 0, 'width': 0, 'non_tuple_doc': True}]
-    fw.bounds.update({'element_depth': cases[0]['depth'] + 1, 'children': '0..%d' % cases[0]['width'], 'attributes': '0..2', 'text_and_attribute_values': 'one symbolic printable byte + a fixed byte',
+    if not quick:
+        # the full option product per node is only affordable for one child; wider / deeper documents keep one representative per
+        # option class below the root
+        cases += [{'family': 'tree', 'depth': 1, 'width': 2, 'reduced': True}, {'family': 'tree', 'depth': 2, 'width': 1, 'reduced': True}]
+    fw.bounds.update({'element_depth': '2 with 0..1 children, full option product per node (quick); + 2 with 0..2 children and 3 with 0..1 children, reduced options below the root (thorough)', 'children': 'see element_depth', 'attributes': '0..2', 'text_and_attribute_values': 'one symbolic printable byte + a fixed byte',
                       'outside': 'escaping, well-formedness and indentation of the text xml-rs writes for an event; validity of element/attribute names; comments/CDATA'})
     fw.oracles.append('reference traversal of the document description (StartDocument, start/attrs/ns, characters, end)')
     fw.explore('documents', harness, cases, fuel=50_000_000, max_paths=800000, deadline_s=240 if quick else 2400)
